@@ -19,6 +19,8 @@ THEOREMS = ['Ndt.psi1_mul', 'Ndt.psi2_mul', 'Ndt.psi_injective', 'Ndt.psi1_powLo
             'Ndt.phi1_cos', 'Ndt.phi2_cos', 'Ndt.phi1_sinh', 'Ndt.phi2_sinh', 'Ndt.phi1_cosh', 'Ndt.phi2_cosh',
             'Ndt.phi1_expm1', 'Ndt.phi2_expm1', 'Ndt.log1p_z1_eq', 'Ndt.log1p_z1_is_extension', 'Ndt.reduces_to_complex',
             'Ndt.reduces_to_complex_ring', 'Ndt.phi_bcEval', 'Ndt.multicomplex2_extracts', 'Ndt.multicomplex1_extracts']
+WIDE = {'arcsinh': 'sym', 'arctan': 'sym', 'log': 'pos', 'sqrt': 'pos', 'log2': 'pos', 'log10': 'pos', 'log1p': 'pos', 'arccosh': 'pos'}
+SMALL = ('log1p', 'expm1', 'sin', 'sinh', 'tan', 'tanh', 'arctan', 'arcsinh', 'arcsin', 'arctanh')
 ENVELOPE = 1e-10      # relative; clean-tree worst is ~2e-13 (cancellation in subtraction)
 
 
@@ -106,6 +108,15 @@ def run(ctx):
             f, (lo, hi) = UNARY[name]
             for it in range(budget):
                 x = rng.uniform(lo, hi)
+                if name in SMALL and rng.random() < 0.2:
+                    # functions vanishing at 0 to first order: tiny arguments, where only a relatively accurate implementation passes
+                    x = rng.choice([-1, 1]) * 10.0 ** rng.uniform(-9, -2)
+                elif name in WIDE and rng.random() < 0.3:
+                    # functions regular on the whole real axis (or half axis): arguments of large magnitude too, as they arise
+                    # inside compositions
+                    x = 10.0 ** rng.uniform(0.5, 5)
+                    if WIDE[name] == 'sym' and rng.random() < 0.5:
+                        x = -x
                 z1, z2 = perturbed(rng, x)
                 ctx.tried((name, z1, z2))
                 asarray = it % 7 == 0
@@ -124,12 +135,17 @@ def run(ctx):
                 e = extend(f, z1, z2)
                 scale = abs(e[0]) + abs(e[1]) + 1e-300
                 err = rel_err(R, e) / scale
-                worst = max(worst, err)
+                # the recorded finding: arcsin / arccos / arctan go through log(J z + sqrt(1 - z^2)) resp. log(1 -+ J z), whose
+                # argument is 1 + O(z): for tiny z the result keeps absolute, not relative, accuracy
+                sig = 'C01-multicomplex2-inverse-trig' if (name in ('arcsin', 'arccos', 'arctan') and abs(x) < 1e-2) else None
+                if sig is None:
+                    worst = max(worst, err)
                 if not err <= ENVELOPE:
                     ctx.violation('Bicomplex.%s differs from the holomorphic extension e1 f(z1 - i z2) + e2 f(z1 + i z2)' % name,
                                   fn=name, z1=str(z1), z2=str(z2), got=[str(complex(R.z1)), str(complex(R.z2))],
-                                  expected=[str(complex(e[0])), str(complex(e[1]))], rel_error=float(err))
-                    break
+                                  expected=[str(complex(e[0])), str(complex(e[1]))], rel_error=float(err), signature=sig)
+                    if sig is None:
+                        break
                 # reduction to the complex function when z2 = 0
                 if it % 5 == 0:
                     R0 = call(Bicomplex(z1, 0), name)
